@@ -63,8 +63,8 @@ impl Property for C17 {
     }
     fn runs(&self, tier: Tier) -> u64 {
         match tier {
-            Tier::Quick => 12_000,
-            Tier::Thorough => 600_000,
+            Tier::Quick => 150_000,
+            Tier::Thorough => 5_000_000,
         }
     }
     fn gen(&self, run_seed: u64, _tier: Tier) -> Value {
@@ -237,6 +237,9 @@ impl Property for C17 {
         }
         out.into_iter().map(|c| serde_json::to_value(c).unwrap()).collect()
     }
+    fn extra(&self, tier: Tier, seed: u64) -> Option<crate::framework::Extra> {
+        Some(cli_part(tier, seed))
+    }
     fn rule(&self) -> String {
         "case = one query (SE/DC/DS, with or without certificate) of one static solver configuration on a generated framework, answered over either SimSat (trait level) or the real BufferedSatSolver reply parser over SimChild. Step 1: fault-free dry run recording the K SAT calls. Step 2: for EVERY call position 1..K (24 seeded positions incl. 1 and K when K > 24) and EVERY fault kind of the backend (trait: Unknown; parser: exit-without-output, status-without-model, model-without-status, truncated, garbage-line, two-status-lines, literal-out-of-range, crash-mid-output) the query is re-run with that fault; it must unwind. Injections whose reply still carries a well-formed verdict (fault on an UNSAT reply) are counted as not manifest and not judged. Non-trivial = at least one injection fired; distinct = distinct base case".into()
     }
@@ -286,8 +289,8 @@ impl Property for C18 {
     }
     fn runs(&self, tier: Tier) -> u64 {
         match tier {
-            Tier::Quick => 150_000,
-            Tier::Thorough => 6_000_000,
+            Tier::Quick => 1_500_000,
+            Tier::Thorough => 30_000_000,
         }
     }
     fn gen(&self, run_seed: u64, _tier: Tier) -> Value {
@@ -440,4 +443,97 @@ impl Property for C18 {
     fn real_vs_stub(&self) -> Value {
         json!({"real": ["crustabri::solvers::{maximal_extension_computer, preferred, ideal, maximal_range, complete, stable}", "crustabri::encodings::*"], "stub": ["SimSat (counting, adversarial decisions)"]})
     }
+}
+
+// ---------------------------------------------------------------------------------------------
+// C17, command-line part: `crustabri solve --external-sat-solver fakesat` with a reply fault at the
+// k-th solver invocation => non-zero exit status, no answer on stdout.
+
+fn cli_part(tier: Tier, seed: u64) -> crate::framework::Extra {
+    use crate::cli::{self, answer_lines, StdoutMode};
+    use crate::props::c05::{gen_graph, render_instance, PROBLEMS};
+    use std::time::Duration;
+    let mut x = crate::framework::Extra::default();
+    let budget = match tier {
+        Tier::Quick => 40u64,
+        Tier::Thorough => 1500,
+    };
+    let kinds = ["exit-without-output", "garbage-line", "model-without-status", "crash-mid-output", "two-status-lines", "truncated"];
+    let mut rng = Rng::new(seed ^ 0xC17C11);
+    let dir = cli::scratch_dir("c17cli");
+    let inst = dir.join("i.af");
+    let counter = dir.join("counter");
+    let t = Duration::from_secs(60);
+    let mut procs = 0u64;
+    let mut fired: std::collections::BTreeMap<String, u64> = Default::default();
+    let mut aborted = 0u64;
+    while procs < budget {
+        let (n, atts) = gen_graph(&mut rng, 5);
+        std::fs::write(&inst, render_instance(&mut rng, false, n, &atts, &[])).unwrap();
+        let problem = loop {
+            let p = PROBLEMS[rng.below(PROBLEMS.len())];
+            if !p.ends_with("-GR") && p != "SE-CO" && p != "DS-CO" {
+                break p;
+            }
+        };
+        let arg = (rng.below(n) + 1).to_string();
+        let base = |extra: Vec<String>| -> Vec<String> {
+            let mut a: Vec<String> = ["solve", "-f", inst.to_str().unwrap(), "-p", problem, "--logging-level", "off", "--external-sat-solver", cli::fakesat_path().to_str().unwrap()].iter().map(|s| s.to_string()).collect();
+            if !problem.starts_with("SE") {
+                a.extend(["-a".to_string(), arg.clone()]);
+            }
+            if extra.iter().any(|e| e == "cert") {
+                a.push("--with-certificate".into());
+            }
+            for o in extra.iter().filter(|e| *e != "cert") {
+                a.extend(["--external-sat-solver-opt".to_string(), o.clone()]);
+            }
+            a
+        };
+        let cert = rng.bool();
+        let mut common = vec![format!("seed={}", rng.below(1000)), format!("counter={}", counter.display())];
+        if cert {
+            common.push("cert".into());
+        }
+        let _ = std::fs::remove_file(&counter);
+        let dry = cli::run("crustabri", &base(common.clone()), StdoutMode::Pipe, t);
+        procs += 1;
+        let k_calls: u64 = std::fs::read_to_string(&counter).ok().and_then(|s| s.trim().parse().ok()).unwrap_or(0);
+        if dry.code != Some(0) || k_calls == 0 {
+            continue; // not this check's business (C05 judges fault-free invocations)
+        }
+        for k in 1..=k_calls.min(4) {
+            let kind = kinds[rng.below(kinds.len())];
+            let _ = std::fs::remove_file(&counter);
+            let mut opts = common.clone();
+            opts.push(format!("fault={}@{}", kind, k));
+            let args = base(opts);
+            let o = cli::run("crustabri", &args, StdoutMode::Pipe, t);
+            procs += 1;
+            *fired.entry(kind.to_string()).or_insert(0) += 1;
+            let lines = answer_lines(&o.stdout);
+            let case = json!({"cli": {"args": args, "instance": String::from_utf8_lossy(&std::fs::read(&inst).unwrap_or_default())}});
+            if o.timed_out {
+                x.violations.push((case, Violation::new("C17", "hang-after-fault", format!("`crustabri {}` did not terminate", args.join(" "))).at("part", "cli")));
+            } else if o.code == Some(0) || !lines.is_empty() {
+                x.violations.push((
+                    case,
+                    Violation::new(
+                        "C17",
+                        "fault-became-answer",
+                        format!("`crustabri {}`: solver reply fault `{}` at invocation {}/{} -> exit {:?}, stdout {:?} (must be a non-zero exit without answer)", args.join(" "), kind, k, k_calls, o.code, String::from_utf8_lossy(&o.stdout)),
+                    )
+                    .at("part", "cli")
+                    .at("fault", kind),
+                ));
+            } else {
+                aborted += 1;
+            }
+        }
+    }
+    let _ = std::fs::remove_dir_all(&dir);
+    x.evaluations = procs;
+    x.value = json!({"cli_part": {"processes": procs, "faults_injected": fired, "aborted_with_nonzero_exit_and_no_answer": aborted,
+        "what": "real crustabri binary + fakesat: a verdict-destroying reply fault at the k-th solver invocation (k <= 4) of a fault-free-successful invocation must give a non-zero exit status and an empty stdout"}});
+    x
 }
